@@ -50,9 +50,11 @@ Definition lookup_t := list Z -> option (Z * list Z).   (* raw barcode -> (index
 Definition ascii_letters : list Z :=
   map (fun i => 97 + Z.of_nat i) (seq 0 26) ++ map (fun i => 65 + Z.of_nat i) (seq 0 26).
 
-(* ascii_letters[min(max(0, ord(c) - 33), len(ascii_letters))] ; None = IndexError (phred >= 52) *)
+(* ascii_letters[min(max(0, ord(c) - 33), len(ascii_letters) - 1)] : phred 0..51 -> a..zA..Z, anything
+   above is clamped to 'Z' (the clamp was len(ascii_letters) before the fix of defect D2 and raised
+   IndexError for phred >= 52).  The option is kept so that a raising encoder stays expressible. *)
 Definition enc_q (c : Z) : option Z :=
-  nth_error ascii_letters (Z.to_nat (Z.min (Z.max 0 (c - 33)) 52)).
+  nth_error ascii_letters (Z.to_nat (Z.min (Z.max 0 (c - 33)) 51)).
 
 Fixpoint enc_qs (l : list Z) : option (list Z) :=
   match l with
@@ -217,6 +219,57 @@ Definition demux_contig_base (L : clayout) (lookup : lookup_t) (recs : list mate
     if negb (Nat.eqb (length BC) (length bcq)) then RaiseE E_Value else
     capture_all (c_capture L) 0 recs
       (fun s q => mkO s q rawbc BC bi (option_map fst umi) RQ rS None None []))))
+  end).
+
+(* ------------------------------------------------------------------ Base_RestrictionBisulfiteDemuxMethod.demultiplex *)
+Record rbextra := mkRB {
+  rb_enzRead : Z; rb_enzStart : Z; rb_enzLength : Z;       (* enzyme id  -> ES, eq *)
+  rb_isRead : Z; rb_isStart : Z; rb_isLength : Z           (* ISPCR      -> IS *)
+}.
+Definition E_Name : Z := 4.
+
+(* own demultiplex: pairs only; no random primer; further tags QT (barcode qualities), ES/eq, IS.
+   enz / ispcr are bound only when their length is non-zero: NameError otherwise *)
+Definition demux_rb (L : clayout) (R : rbextra) (lookup : lookup_t) (recs : list mate) : outcome (list orec) :=
+  let n := Z.of_nat (length recs) in
+  if negb (n =? 2) then Reject else
+  bind (idx_or_raise recs (c_bcRead L)) (fun rb =>
+  let bsl := slice_range (c_bcStart L) (c_bcStart L + c_bcLength L) in
+  let rawbc := pyslice bsl (fst rb) in
+  let bcq := pyslice bsl (snd rb) in
+  match lookup rawbc with
+  | None => Reject
+  | Some (bi, BC) =>
+    bind (if c_umiLength L =? 0 then Accept None
+          else bind (idx_or_raise recs (c_umiRead L)) (fun ru =>
+               let usl := slice_range (c_umiStart L) (c_umiStart L + c_umiLength L) in
+               Accept (Some (pyslice usl (fst ru), pyslice usl (snd ru))))) (fun umi =>
+    bind (if rb_enzLength R =? 0 then Accept None
+          else bind (idx_or_raise recs (rb_enzRead R)) (fun re =>
+               let esl := slice_range (rb_enzStart R) (rb_enzStart R + rb_enzLength R) in
+               Accept (Some (pyslice esl (fst re), pyslice esl (snd re))))) (fun enz =>
+    bind (if rb_isLength R =? 0 then Accept None
+          else bind (idx_or_raise recs (rb_isRead R)) (fun ri =>
+               let isl := slice_range (rb_isStart R) (rb_isStart R + rb_isLength R) in
+               Accept (Some (pyslice isl (fst ri))))) (fun ispcr =>
+    bind (match umi with
+          | None => Accept None
+          | Some (u, uq) => bind (enc_or_raise uq) (fun rq => Accept (Some rq))
+          end) (fun RQ =>
+    bind (enc_or_raise bcq) (fun QT =>
+    if negb (Nat.eqb (length BC) (length bcq)) then RaiseE E_Value else
+    match enz with
+    | None => RaiseE E_Name
+    | Some (es, eqraw) =>
+      bind (enc_or_raise eqraw) (fun eq_ =>
+      match ispcr with
+      | None => RaiseE E_Name
+      | Some is_ =>
+        capture_all (c_capture L) 0 recs
+          (fun s q => mkO s q rawbc BC bi (option_map fst umi) RQ None None None
+                          [(1, QT); (2, es); (3, eq_); (4, is_)])
+      end)
+    end)))))
   end).
 
 (* ------------------------------------------------------------------ ScatteredUmiBarcodeDemuxMethod.demultiplex *)
@@ -476,6 +529,34 @@ Definition expected (P : playout) (rx_if_nonempty : bool) (lookup : lookup_t) (r
           []))
   end.
 
+(* restriction-bisulfite: positions of the plain shape and the further tags *)
+Definition positions_rb (L : clayout) (R : rbextra) : option (playout * list (Z * region)) :=
+  let okm := fun m => (0 <=? m) && (m <? 2) in
+  if negb (okm (rb_enzRead R) && (0 <=? rb_enzStart R) && (0 <? rb_enzLength R)
+           && okm (rb_isRead R) && (0 <=? rb_isStart R) && (0 <? rb_isLength R)) then None else
+  match c_rpRead L, positions_c (mkC (c_umiRead L) (c_umiStart L) (c_umiLength L) (c_bcRead L) (c_bcStart L)
+                                     (c_bcLength L) None None (c_capture L)) (mkW (Some 2) None false) with
+  | None, Some P =>
+    let enz := (rb_enzRead R, rb_enzStart R, rb_enzLength R) in
+    Some (P, [(1, (c_bcRead L, c_bcStart L, c_bcLength L)); (2, enz); (3, enz);
+              (4, (rb_isRead R, rb_isStart R, rb_isLength R))])
+  | _, _ => None
+  end.
+
+(* tag 1 (QT) and 3 (eq) are encoded qualities, 2 (ES) and 4 (IS) bases *)
+Definition extra_value (recs : list mate) (x : Z * region) : Z * list Z :=
+  (fst x, if (fst x =? 1) || (fst x =? 3) then map enc_total (reg_qual recs (snd x)) else reg_seq recs (snd x)).
+
+Definition set_extra (e : list (Z * list Z)) (o : orec) : orec :=
+  mkO (o_seq o) (o_qual o) (o_bc o) (o_BC o) (o_bi o) (o_RX o) (o_RQ o) (o_rS o) (o_lh o) (o_lq o) e.
+
+Definition expected_rb (P : playout) (X : list (Z * region)) (lookup : lookup_t) (recs : list mate)
+  : option (list orec) :=
+  match expected P false lookup recs with
+  | Some out => Some (map (set_extra (map (extra_value recs) X)) out)
+  | None => None
+  end.
+
 (* ------------------------------------------------------------------ boolean equality of outputs (mode 2) *)
 Definition olist_eqb (a b : option (list Z)) : bool :=
   match a, b with
@@ -487,7 +568,10 @@ Definition orec_eqb (a b : orec) : bool :=
   list_eqb (o_seq a) (o_seq b) && list_eqb (o_qual a) (o_qual b) && list_eqb (o_bc a) (o_bc b) &&
   list_eqb (o_BC a) (o_BC b) && (o_bi a =? o_bi b) && olist_eqb (o_RX a) (o_RX b) &&
   olist_eqb (o_RQ a) (o_RQ b) && olist_eqb (o_rS a) (o_rS b) && olist_eqb (o_lh a) (o_lh b) &&
-  olist_eqb (o_lq a) (o_lq b).
+  olist_eqb (o_lq a) (o_lq b) &&
+  Nat.eqb (length (o_extra a)) (length (o_extra b)) &&
+  forallb (fun p => (fst (fst p) =? fst (snd p)) && list_eqb (snd (fst p)) (snd (snd p)))
+          (combine (o_extra a) (o_extra b)).
 Fixpoint orecs_eqb (a b : list orec) : bool :=
   match a, b with
   | [], [] => true
@@ -520,6 +604,7 @@ Record gen := mkG {
   g_c : clayout;                 (* kind 1, 4 *)
   g_s : slayout;                 (* kind 2 *)
   g_w : wrapper;                 (* traced: exact arity, ligation bases *)
+  g_rb : rbextra;                (* kind 4: enzyme / ISPCR attributes *)
   g_traced : option playout      (* positions observed by demultiplexing one pair of reads whose
                                     characters are all distinct (kinds 1, 2, 4) *)
 }.
